@@ -33,6 +33,21 @@ def generate(rng, tier):
                 for v in seq:
                     body += R.draw(rng, v)
                 g["verb-sequences"].append(case(vb, rc, body + ["Z"]))
+    # "the pen itself when the previous operation was of another kind": an arc (also one with a zero radius, which is
+    # a straight line) between a curve and a smooth operation of the same degree
+    g["smooth-after-arc"] = []
+    for first in "QqCcTtSs":
+        for av in "Aa":
+            for kind in range(3):
+                for sm in "TtSs":
+                    for vb, rc in CONFIGS:
+                        arc = R.draw(rng, av)
+                        if kind == 0:
+                            arc[1] = "00000000"
+                        elif kind == 1:
+                            arc[2] = "00000000"
+                        body = ["SP", "0", R.mf(rng), R.mf(rng)] + R.draw(rng, first) + arc + R.draw(rng, sm)
+                        g["smooth-after-arc"].append(case(vb, rc, body + ["Z"]))
     for _ in range(6000 if tier == "quick" else 200000):
         vb, rc = R.viewbox(rng), R.rect(rng)
         body = []
